@@ -347,7 +347,12 @@ fn one_case(r: &mut Rng, id: usize, out: &mut String, big: bool) {
         }
         "hypercube" => {
             let n = cdim(r);
-            let rad = if r.chance(1, 8) { gen_coef(r, 8) } else { gen_coef(r, 8).abs() + 0.25 };
+            // radius: mostly positive; 0 and negative ones too (x_i <= r and -x_i <= r with r < 0: the empty set)
+            let rad = match r.below(6) {
+                0 => gen_coef(r, 8),
+                1 => -(gen_coef(r, 8).abs() + 0.25),
+                _ => gen_coef(r, 8).abs() + 0.25,
+            };
             args.push(a_n(n));
             args.push(a_q(rad));
             for i in 0..n {
